@@ -72,9 +72,9 @@ Fixpoint stmt_eqb (a b : stmt) : bool :=
   end.
 Definition prog_eqb : list stmt -> list stmt -> bool := list_eqb stmt_eqb.
 
-Definition run_gen (q : spass) : list stmt -> list stmt := run_pass gen_negcmp gen_guards q.
 (* the faithful setting: a negated count jump does not compile *)
 Definition CNTNEG : bool := false.
+Definition run_gen (q : spass) : list stmt -> list stmt := run_pass gen_negcmp gen_guards q.
 
 (* which of the six comparisons fail: 1 = loop pass, 2 = if/else pass (on the implementation's P1), 3 = break
    pass (on P2), 4 = unused labels (on P3), 5 = the composition in the generated pass order vs the default
@@ -116,6 +116,27 @@ Definition HASH_P : N := 2305843009213693951%N.
 Definition hash_prog (p : list stmt) : N :=
   fold_left (fun h t => ((h * 1000003 + t + 1) mod HASH_P)%N) (e_prog p) 7%N.
 
+(* token encoding of a canonical stream (harness: hash_canon) *)
+Definition e_state (x : option state) : list N :=
+  match x with None => [0%N] | Some (i, t) => 1%N :: e_nat i :: e_z t end.
+Definition e_item (it : citem) : list N :=
+  match it with
+  | (t, d, b) =>
+      e_z t ++ e_diff d ::
+      match b with
+      | BIns i refs => 0%N :: e_nat i :: e_nat (length refs) :: flat_map e_state refs
+      | BIntr n => [1%N; e_nat n]
+      | BJump k tgt ex =>
+          2%N :: match k with KU => [0%N] | KIf c => 1%N :: e_cond c | KUnless c => 2%N :: e_cond c end
+          ++ e_state tgt ++ match ex with None => [0%N] | Some t => 1%N :: e_z t end
+      end
+  end.
+Definition hash_canon (l : list citem) : N :=
+  fold_left (fun h t => ((h * 1000003 + t + 1) mod HASH_P)%N) (e_nat (length l) :: flat_map e_item l) 7%N.
+
+(* comparisons 8 and 9: the model's canonical stream ([canon_of], on which the theorems rest) against the
+   implementation's own flattening -- desugar_blocks + time pass + label resolution done by the harness --
+   of the flat decompilation (8) and of the reconstructed program (9) *)
 Definition failing (c : c07case) : list nat :=
   match c with
   | KHash f hs =>
@@ -129,8 +150,14 @@ Definition failing (c : c07case) : list nat :=
          | [], [] => []
          | m :: ms', h :: hs' => (if N.eqb (hash_prog m) h then [] else [k]) ++ go (S k) ms' hs'
          | _, _ => [7]
-         end) 1 [m1; m2; m3; m4; ms] hs
+         end) 1 [m1; m2; m3; m4; ms] (firstn 5 hs)
       ++ (if is_flat f then [] else [6])
+      ++ match skipn 5 hs with
+         | [hf; hs'] =>
+             (if N.eqb (hash_canon (canon_of gen_negcmp CNTNEG f)) hf then [] else [8])
+             ++ (if N.eqb (hash_canon (canon_of gen_negcmp CNTNEG ms)) hs' then [] else [9])
+         | _ => [7]
+         end
   | KStruct f p1 p2 p3 p4 s =>
       (if prog_eqb (run_gen PLoop f) p1 then [] else [1])
       ++ (if prog_eqb (run_gen PIfElse p1) p2 then [] else [2])
